@@ -225,7 +225,8 @@ func (m *Model) v(prop, rule, facts, msg string, op int) {
 		prop == "C04" && rule == "published-state-mismatch" ||
 		!burst && prop == "C20" && (rule == "replacement-stale-addrs" || rule == "new-conn-stale-addrs") ||
 		prop == "C03" && rule == "growth-while-pending" ||
-		!burst && prop == "C08" && rule == "stand-in-not-reused")) {
+		!burst && prop == "C08" && rule == "stand-in-not-reused" ||
+		!burst && prop == "C01" && rule == "bound-key-not-on-home")) {
 		// degraded serial runs (a live connection was shut down under the pool):
 		// C04 quantifies over "shutdowns in any order", its callback-level clauses
 		// stay judged; so do C20's address clauses (a connection that joins the pool
@@ -880,7 +881,10 @@ func (m *Model) pickInvoke(ev Event) {
 			// remains (it is stated over observed states; a home that was shut down
 			// is not READY for good). Which channel becomes a stand-in is recorded,
 			// not judged.
-			if ex := m.expectPick(c, cm); ex.prop == "C08" && (ex.rule == "stand-in-not-reused" || ex.standIn != "") {
+			if ex := m.expectPick(c, cm); ex.prop == "C08" && (ex.rule == "stand-in-not-reused" || ex.standIn != "") ||
+				ex.prop == "C01" && ex.rule == "bound-key-not-on-home" {
+				// (likewise C01's "no call for K is placed on another channel while K's
+				// channel is READY": the home is a channel still in the pool and READY)
 				cm.exD = &ex
 			}
 		}
@@ -1068,11 +1072,11 @@ func (m *Model) pickReturn(ev Event) {
 		return
 	}
 	if cm.ex == nil || m.track {
-		if ex := cm.exD; ex != nil && ex.rule == "stand-in-not-reused" && ex.kind == "placed" && (res.Kind != ResPlaced || !ex.allowed[placedCh]) {
-			m.probe("degraded_standin_reuse_judged")
-			m.v("C08", "stand-in-not-reused", ex.facts, fmt.Sprintf("call %d %s keys=%v on the latest picker: result %s (channel %d); want channel %v: %s", c.ID, c.MethodName, c.ReqKeys, res, placedCh, keysOf(ex.allowed), ex.why), ev.Op)
-		} else if ex != nil && ex.rule == "stand-in-not-reused" {
-			m.probe("degraded_standin_reuse_judged")
+		if ex := cm.exD; ex != nil && (ex.rule == "stand-in-not-reused" || ex.rule == "bound-key-not-on-home") && ex.kind == "placed" {
+			m.probe("degraded_" + map[string]string{"C08": "standin_reuse", "C01": "home_routing"}[ex.prop] + "_judged")
+			if res.Kind != ResPlaced || !ex.allowed[placedCh] {
+				m.v(ex.prop, ex.rule, ex.facts, fmt.Sprintf("call %d %s keys=%v on the latest picker: result %s (channel %d); want channel %v: %s", c.ID, c.MethodName, c.ReqKeys, res, placedCh, keysOf(ex.allowed), ex.why), ev.Op)
+			}
 		}
 		// structural bookkeeping only
 		if m.track && cm.rr {
